@@ -9,8 +9,19 @@ side is read through the public API only (`states()`, `transitions()`, `S0`, `la
 `labelling_function()`), compared as sets.  States are numbers in the model; the implementation is additionally
 run with the states renamed by a bijection to strings / tuples / mixed values and compared through the bijection.
 Runtime-only monitoring (the model is pure): no label set (nor successor set, nor S0) of a clone / substructure is
-shared with the original - checked by identity and by mutating copy resp. original and re-taking snapshots."""
+shared with the original - checked by identity and by mutating copy resp. original and re-taking snapshots.
+
+Atomic propositions are the names p, q in the model; the implementation is run with p, q renamed by an injective
+vocabulary to multi-character strings, strings made of other atoms' characters, non-string and mutually unorderable
+values, iterable values and identity-hashed objects, and label sets are compared AS VALUES through the vocabulary
+(an atom that is not a vocabulary value shows up as UNKNOWN:...).  L is passed as dict / OrderedDict /
+defaultdict(set) / a dict subclass; V as set / frozenset / set subclass / dict keys view / states() of another
+structure / a collections.abc.Set.  Sessions: a structure is edited through the public API (add_edge between
+existing states, replace_labelling_function, label_fair_states, K = K.clone()) and clone()/get_substructure are
+compared before the first and after every edit with the model's constructor applied to the edited ARGUMENTS."""
 import itertools
+import collections
+import collections.abc
 from common import *
 LEVEL = 'proof'
 
@@ -18,6 +29,109 @@ FOREIGN = 99                     # never a state of any generated structure
 APS = ('p', 'q')
 LABSETS = [None, (), ('p',), ('q',), ('p', 'q')]      # None = no entry in L for that key
 MAX_REPORT = 40
+
+
+class AtomObj(object):
+    """an atomic proposition that is a plain object (identity __eq__/__hash__, not orderable)"""
+    def __init__(self, i):
+        self.i = i
+
+    def __repr__(self):
+        return 'AtomObj(%d)' % self.i
+
+
+_ATOMOBJ = [AtomObj(0), AtomObj(1)]
+# vocabulary: the python values standing for the model's atoms p, q
+VOCABS = [
+    ('p', 'q'),
+    ('done', 'ready'),                      # multi-character names
+    ('pq', 'p'),                            # a name whose characters are (other) names
+    (1, '1'),                               # equal under str()
+    (('a', 1), 2),                          # tuple / int: hashable, mutually unorderable
+    ('done', 7),                            # str / int: mutually unorderable
+    (frozenset(['x', 'y']), 'xy'),          # an atom that is itself iterable
+    (_ATOMOBJ[0], _ATOMOBJ[1]),             # identity-hashed objects
+    ('', 'a b'),                            # empty name, name with a blank
+]
+VOCAB_DESC = ['p/q', 'done/ready', 'pq/p', '1/"1"', 'tuple/int', 'str/int', 'frozenset/str', 'objects', 'empty/blank']
+
+
+def atom_maps(vocab):
+    """model atom name -> python value, and python value -> canonical (model) name"""
+    P, Qv = VOCABS[vocab]
+    fwd = {'p': P, 'q': Qv}
+    back = {P: 'p', Qv: 'q'}
+
+    def g(a):
+        return fwd[a] if a in fwd else a     # fair, fair0, ... stand for themselves
+
+    def ginv(v):
+        try:
+            if v in back:
+                return back[v]
+        except TypeError:
+            pass
+        if isinstance(v, str) and v.startswith('fair') and (v == 'fair' or v[4:].isdigit()):
+            return v
+        return 'UNKNOWN:%s:%r' % (type(v).__name__, v)
+    return g, ginv
+
+
+class DictSub(dict):
+    """a user subclass of dict"""
+    pass
+
+
+class SetSub(set):
+    """a user subclass of set"""
+    pass
+
+
+class VSet(collections.abc.Set):
+    """a set in the sense of collections.abc (has & | <= ..., but none of set's named methods)"""
+    def __init__(self, it=()):
+        self._d = list(dict.fromkeys(it))
+
+    def __contains__(self, x):
+        return x in self._d
+
+    def __iter__(self):
+        return iter(self._d)
+
+    def __len__(self):
+        return len(self._d)
+
+
+L_KINDS = ['dict', 'OrderedDict', 'defaultdict(set)', 'dict subclass']
+V_KINDS = ['set', 'set', 'frozenset', 'dict keys view', 'states() of another Kripke', 'collections.abc.Set', 'set subclass']
+
+
+def mk_L(items, lk):
+    if lk == 1:
+        return collections.OrderedDict(items)
+    if lk == 2:
+        d = collections.defaultdict(set)
+        d.update(items)
+        return d
+    if lk == 3:
+        return DictSub(items)
+    return dict(items)
+
+
+def mk_V(vals, kind):
+    vals = list(vals)
+    if kind == 2:
+        return frozenset(vals)
+    if kind == 3:
+        return dict.fromkeys(vals).keys()
+    if kind == 4:
+        from pyModelChecking.kripke import Kripke
+        return Kripke(R=[(v, v) for v in vals]).states()
+    if kind == 5:
+        return VSet(vals)
+    if kind == 6:
+        return SetSub(vals)
+    return set(vals)
 
 
 # ----------------------------------------------------------------------------------------
@@ -70,14 +184,18 @@ def mk_seq(xs, kind):
     return iter(list(xs))                        # a one-shot iterator
 
 
-def mk_labval(atoms, kind):
+def mk_labval(atoms, kind, vocab=0):
     k = kind % 7
     if k == 4:
-        return ''.join(atoms)                    # atoms are single characters: 'pq' iterates to p, q
+        if vocab == 0:
+            return ''.join(atoms)                # atoms are single characters: 'pq' iterates to p, q
+        return dict.fromkeys(atoms)              # a dict iterates to its keys
     return mk_seq(atoms, k)
 
 
-def build_args(case, f):
+def build_args(case, f, g=None):
+    g = g or (lambda a: a)
+    vocab = case.get('vocab', 0)
     k = case['kinds']
     S = None if case['S'] is None else mk_seq([f(s) for s in case['S']], k[0])
     S0 = None if case['S0'] is None else mk_seq([f(s) for s in case['S0']], k[1])
@@ -89,11 +207,13 @@ def build_args(case, f):
     if case['L'] is None:
         L = None
     else:
-        L = {f(s): mk_labval(list(at), k[3] + i) for i, (s, at) in enumerate(case['L'])}
+        L = mk_L([(f(s), mk_labval([g(a) for a in at], k[3] + i, vocab)) for i, (s, at) in enumerate(case['L'])],
+                 case.get('Lk', 0))
     return S, S0, R, L
 
 
 def model_ctor_cmd(case):
+    """the model's constructor on (S, S0, R, L) of `case` (any dict with these four keys)"""
     L = case['L'] or []
     return sx_str(['kripke', case['S'] or [], case['S0'] or [], [list(e) for e in (case['R'] or [])],
                    [[s, [Q(a) for a in at]] for s, at in L]])
@@ -108,10 +228,52 @@ def subsets(xs):
     return [list(c) for r in range(len(xs) + 1) for c in itertools.combinations(xs, r)]
 
 
-def finish_case(case, rng, nV=None):
-    """add container kinds, the V subsets and the query states"""
+def is_total(case):
+    st = case_states(case)
+    return bool(st) and not (set(st) - {a for a, _ in (case['R'] or [])})
+
+
+def fair_name(L):
+    """the name label_fair_states picks: fair, fair0, fair1, ... - the first one that labels nothing"""
+    used = {a for _, at in L for a in at}
+    name, i = 'fair', 0
+    while name in used:
+        name, i = 'fair%d' % i, i + 1
+    return name
+
+
+def gen_session(case, rng):
+    """edits through the public API that keep the structure total and fully labelled, and the V to ask after each"""
+    st = case_states(case)
+    edges = {(a, b) for a, b in case['R']}
+    edits = []
+    for _ in range(rng.randint(1, 3)):
+        free = [(a, b) for a in st for b in st if (a, b) not in edges]
+        kind = rng.choice(['edge', 'edge', 'edge', 'relabel', 'fair', 'clone'])
+        if kind == 'edge' and free:
+            e = rng.choice(free)
+            edges.add(e)
+            edits.append(['edge', e[0], e[1]])
+        elif kind == 'relabel':
+            edits.append(['relabel', [[s, [a for a in APS if rng.random() < 0.5]]
+                                      for s in st + [FOREIGN] if rng.random() < 0.7]])
+        elif kind == 'fair':
+            edits.append(['fair', [[s for s in st if rng.random() < 0.5] for _ in range(rng.randint(0, 2))]])
+        else:
+            edits.append(['clone'])
+    Vs = [list(st)] + [[x for x in st + [FOREIGN] if rng.random() < 0.6] for _ in range(2)]
+    return {'edits': edits, 'Vs': Vs}
+
+
+def finish_case(case, rng, nV=None, session=0.0):
+    """add container kinds, the atom vocabulary, the V subsets, the query states and (sometimes) an edit session"""
     st = case_states(case)
     case['kinds'] = [rng.randrange(7), rng.randrange(7), rng.randrange(7), rng.randrange(7)]
+    case['vocab'] = 0 if rng.random() < 0.4 else rng.randrange(1, len(VOCABS))
+    case['Lk'] = 0 if rng.random() < 0.5 else rng.randrange(1, len(L_KINDS))
+    case['vk'] = rng.randrange(len(V_KINDS))
+    if session and is_total(case) and rng.random() < session:
+        case['session'] = gen_session(case, rng)
     for key in ('S', 'S0', 'R', 'L'):            # an empty argument is passed as None half of the time
         if case[key] is not None and len(case[key]) == 0 and rng.random() < 0.5:
             case[key] = None
@@ -180,15 +342,15 @@ def qcall(fn):
         return ('err', exc_name(e))
 
 
-def observe(K, inv):
-    """API-level view of a live structure, canonical (sorted) and in model numbering"""
+def observe(K, inv, ginv=str):
+    """API-level view of a live structure, canonical (sorted), in model numbering and model atom names"""
     st = sorted(inv(s) for s in K.states())
     lab = []
     for s in K.states():
         ls = K.labels(s)
         if not isinstance(ls, (set, frozenset)):
             raise TypeError('labels() is not a set')
-        lab.append([inv(s), sorted(str(a) for a in ls)])
+        lab.append([inv(s), sorted(ginv(a) for a in ls)])
     return {'states': st,
             'edges': sorted([inv(a), inv(b)] for a, b in K.transitions()),
             'S0': sorted(inv(s) for s in K.S0),
@@ -211,10 +373,10 @@ def invariants(o):
     return bad
 
 
-def obs_of(r, inv):
+def obs_of(r, inv, ginv=str):
     if r[0] != 'ok':
         return ['err', r[1]]
-    o = qcall(lambda: observe(r[1], inv))
+    o = qcall(lambda: observe(r[1], inv, ginv))
     return ['ok', o[1]] if o[0] == 'ok' else ['err', 'observe:' + str(o[1])]
 
 
@@ -244,47 +406,111 @@ def mutate(K, tag):
             pass
 
 
+def share_findings(K, K2, key, alias):
+    """identity monitors: nothing the result hands out IS an object of the structure it was made from"""
+    sh = qcall(lambda: (bool(label_ids(K) & label_ids(K2)) or K.labelling_function() is K2.labelling_function(),
+                       bool(next_ids(K) & next_ids(K2)), K.S0 is K2.S0))
+    if sh[0] == 'ok':
+        if sh[1][0]:
+            alias.append([key, 'a label set object of the result IS a label set of the original'])
+        if sh[1][1]:
+            alias.append([key, 'a successor set object of the result IS one of the original'])
+        if sh[1][2]:
+            alias.append([key, 'S0 object shared'])
+
+
+def run_session(case, out, alias):
+    """a fresh structure edited through the public API; clone()/get_substructure before the first and after every
+    edit (keys s<i>:...).  Returns {step: fair states found by the implementation} for the model's prediction."""
+    from pyModelChecking.kripke import Kripke
+    f, inv = renaming(case['ren'])
+    g, ginv = atom_maps(case.get('vocab', 0))
+    sess = case['session']
+    S, S0, R, L = build_args(case, f, g)
+    r = qcall(lambda: Kripke(S=S, S0=S0, R=R, L=L))
+    if r[0] != 'ok':
+        out['s0:ctor'] = ['err', r[1]]
+        return {}
+    K = r[1]
+    fair = {}
+    vk = case.get('vk', 0)
+    for i in range(len(sess['edits']) + 1):
+        if i > 0:
+            e = sess['edits'][i - 1]
+            key = 's%d:edit' % i
+            res = None
+            if e[0] == 'edge':
+                r = qcall(lambda: K.add_edge(f(e[1]), f(e[2])))
+            elif e[0] == 'relabel':
+                L2 = {f(s): set(g(a) for a in at) for s, at in e[1]}
+                r = qcall(lambda: K.replace_labelling_function(L2))
+            elif e[0] == 'fair':
+                F = [set(f(s) for s in P) for P in e[1]]
+                r = qcall(lambda: sorted(inv(s) for s in K.get_fair_states(F)))
+                if r[0] == 'ok':
+                    fair[i] = r[1]
+                    r = qcall(lambda: K.label_fair_states(F))
+                    res = r[1] if r[0] == 'ok' else None
+            else:
+                r = qcall(lambda: K.clone())
+                if r[0] == 'ok':
+                    K = r[1]
+            out[key] = ['ok', res] if r[0] == 'ok' else ['err', r[1]]
+            if r[0] != 'ok':
+                break
+        snap = qcall(lambda: kripke_snapshot(K))
+        ops = [('clone', None)] + [('sub:' + ','.join(map(str, V)), V) for V in sess['Vs']]
+        for j, (k2, V) in enumerate(ops):
+            key = 's%d:%s' % (i, k2)
+            if V is None:
+                r2 = qcall(lambda: K.clone())
+            else:
+                Vset = mk_V([f(v) for v in V], (vk + i + j) % len(V_KINDS))
+                r2 = qcall(lambda: K.get_substructure(Vset))
+            out[key] = obs_of(r2, inv, ginv)
+            if r2[0] == 'ok' and out[key][0] == 'ok':
+                share_findings(K, r2[1], key, alias)
+            if qcall(lambda: kripke_snapshot(K)) != snap:
+                alias.append([key, 'the structure changed by copying it'])
+                snap = qcall(lambda: kripke_snapshot(K))
+    return fair
+
+
 def run_impl(case):
     """constructor + all operations on the live object; returns dict key -> observation, aliasing findings"""
     from pyModelChecking.kripke import Kripke
     f, inv = renaming(case['ren'])
-    S, S0, R, L = build_args(case, f)
+    g, ginv = atom_maps(case.get('vocab', 0))
+    S, S0, R, L = build_args(case, f, g)
     r = qcall(lambda: Kripke(S=S, S0=S0, R=R, L=L))
-    out = {'ctor': obs_of(r, inv)}
+    out = {'ctor': obs_of(r, inv, ginv)}
     alias = []
     if r[0] != 'ok':
-        return out, alias, None
+        return out, alias, {}
     K = r[1]
     snap0 = qcall(lambda: kripke_snapshot(K))
     # queries first (on the untouched object)
     for s in case['Q']:
         q = qcall(lambda: K.labels(f(s)))
-        out['labels:%d' % s] = ['ok', sorted(str(a) for a in q[1])] if q[0] == 'ok' else ['err', q[1]]
+        out['labels:%d' % s] = ['ok', sorted(ginv(a) for a in q[1])] if q[0] == 'ok' else ['err', q[1]]
         q = qcall(lambda: K.next(f(s)))
         if q[0] == 'ok':
             q = qcall(lambda: sorted(inv(d) for d in q[1]))
         out['next:%d' % s] = [q[0], q[1]]
     kept = []
+    vk = case.get('vk', 0)
     ops = [('clone', None)] + [('sub:' + ','.join(map(str, V)), V) for V in case['Vs']]
     for i, (key, V) in enumerate(ops):
         if V is None:
             do = lambda: K.clone()
         else:
-            Vset = (frozenset if i % 3 == 2 else set)(f(v) for v in V)
+            Vset = mk_V([f(v) for v in V], (vk + i) % len(V_KINDS))
             do = lambda: K.get_substructure(Vset)
         r2 = qcall(do)
-        out[key] = obs_of(r2, inv)
+        out[key] = obs_of(r2, inv, ginv)
         if r2[0] == 'ok' and out[key][0] == 'ok':
             K2 = r2[1]
-            sh = qcall(lambda: (bool(label_ids(K) & label_ids(K2)) or K.labelling_function() is K2.labelling_function(),
-                               bool(next_ids(K) & next_ids(K2)), K.S0 is K2.S0))
-            if sh[0] == 'ok':
-                if sh[1][0]:
-                    alias.append([key, 'a label set object of the result IS a label set of the original'])
-                if sh[1][1]:
-                    alias.append([key, 'a successor set object of the result IS one of the original'])
-                if sh[1][2]:
-                    alias.append([key, 'S0 object shared'])
+            share_findings(K, K2, key, alias)
             kept.append((key, K2, qcall(lambda: kripke_snapshot(K2))))
             r3 = qcall(do)                       # a second, throw-away copy that gets mutated
             if r3[0] == 'ok':
@@ -297,7 +523,8 @@ def run_impl(case):
     for key, K2, snap2 in kept:
         if qcall(lambda: kripke_snapshot(K2)) != snap2:
             alias.append([key, 'the result changed when the original was mutated afterwards'])
-    return out, alias, True
+    fair = run_session(case, out, alias) if case.get('session') else {}
+    return out, alias, fair
 
 
 def ctor_alias_probe(case):
@@ -365,7 +592,42 @@ def model_ops(case, Ksx):
     return cmds
 
 
+def session_steps(case, ctor_obs, fair):
+    """the constructor arguments the structure is predicted to be equivalent to, before the first and after every
+    edit (model numbering, model atom names), and the expected result of every edit"""
+    cur = {'S': list(ctor_obs['states']), 'S0': list(ctor_obs['S0']), 'R': [list(e) for e in ctor_obs['edges']],
+           'L': [[s, list(at)] for s, at in ctor_obs['labels']]}
+    steps = [json.loads(json.dumps(cur))]
+    results = {}
+    for i, e in enumerate(case['session']['edits'], 1):
+        results['s%d:edit' % i] = ['ok', None]
+        if e[0] == 'edge':
+            cur['R'].append([e[1], e[2]])
+        elif e[0] == 'relabel':
+            cur['L'] = [[s, list(at)] for s, at in e[1]]
+        elif e[0] == 'fair':
+            name = fair_name(cur['L'])
+            results['s%d:edit' % i] = ['ok', name]
+            if i not in fair:                    # the implementation failed there: nothing to predict from
+                break
+            have = {s for s, _ in cur['L']}
+            cur['L'] = [[s, list(at) + ([name] if s in fair[i] else [])] for s, at in cur['L']] \
+                + [[s, [name]] for s in fair[i] if s not in have]
+        steps.append(json.loads(json.dumps(cur)))
+    return steps, results
+
+
+def session_ops(case, i, Ksx):
+    ks = sx_str(Ksx)
+    cmds = [('s%d:clone' % i, '(kclone %s)' % ks)]
+    for V in case['session']['Vs']:
+        cmds.append(('s%d:sub:%s' % (i, ','.join(map(str, V))), '(substr %s %s)' % (ks, sx_str(V))))
+    return cmds
+
+
 def m_answer(key, o):
+    if key[0] == 's' and key[1].isdigit():
+        key = key.split(':', 1)[1]
     if key == 'clone' or key.startswith('sub:'):
         return m_kripke(o)
     if o[0] != 'ok':
@@ -385,6 +647,20 @@ def process(R, cases, st, verbose=False):
     plan = []
     for c, o in zip(cases, r1):
         plan.append(model_ops(c, o[1]) if o[0] == 'ok' else [])
+    # sessions: the model's constructor on the edited arguments, then the operations on ITS result
+    sess = {}
+    for idx, (c, (_o, _a, fair), o) in enumerate(zip(cases, impl, r1)):
+        if c.get('session') and o[0] == 'ok':
+            steps, results = session_steps(c, mk_obs(o[1]), fair)
+            sess[idx] = (steps, results, [model_ctor_cmd(a) for a in steps])
+    r1b, n1b = model_many([s for idx in sorted(sess) for s in sess[idx][2]])
+    st['model_cmds'] += n1b
+    pos = 0
+    for idx in sorted(sess):
+        for i in range(len(sess[idx][0])):
+            if r1b[pos][0] == 'ok':
+                plan[idx] = plan[idx] + session_ops(cases[idx], i, r1b[pos][1])
+            pos += 1
     flat = [s for p in plan for _, s in p]
     r2, n2 = model_many(flat)
     st['model_cmds'] += n2
@@ -392,6 +668,8 @@ def process(R, cases, st, verbose=False):
     for idx, (c, (out, alias, _), o, p) in enumerate(zip(cases, impl, r1, plan)):
         R.evaluations += 1
         model = {'ctor': m_kripke(o)}
+        if idx in sess:
+            model.update(sess[idx][1])
         for key, _s in p:
             model[key] = m_answer(key, r2[pos])
             pos += 1
@@ -404,13 +682,16 @@ def process(R, cases, st, verbose=False):
         differs = [k for k in sorted(set(out) | set(model)) if out.get(k) != model.get(k)]
         invbad = []
         for k, v in out.items():
-            if (k == 'ctor' or k == 'clone' or k.startswith('sub:')) and v[0] == 'ok':
+            if (k == 'ctor' or k.endswith('clone') or 'sub:' in k) and v[0] == 'ok':
                 invbad += [[k, b] for b in invariants(v[1])]
         kind = 'ren%d' % c['ren']
         st['ctor'][model['ctor'][0] if model['ctor'][0] == 'ok' else model['ctor'][1]] += 1
         st['ren'][kind] = st['ren'].get(kind, 0) + 1
         nst = len(case_states(c))
         st['n_states'][nst] = st['n_states'].get(nst, 0) + 1
+        if model['ctor'][0] == 'ok' and model['ctor'][1]['labels']:
+            for hk, hv in (('vocab', VOCAB_DESC[c.get('vocab', 0)]), ('Lk', L_KINDS[c.get('Lk', 0)])):
+                st[hk][hv] = st[hk].get(hv, 0) + 1
         if differs or alias or invbad:
             what = []
             if differs:
@@ -428,6 +709,11 @@ def process(R, cases, st, verbose=False):
             continue
         if model['ctor'][0] != 'ok':
             continue
+        if idx in sess:
+            st['sessions'] += 1
+            for i, e in enumerate(c['session']['edits'], 1):
+                st['session_edits'][e[0]] = st['session_edits'].get(e[0], 0) + 1
+                R.nontriv(('session', c['S'], c['S0'], c['R'], c['L'], c['ren'], json.dumps(c['session']['edits'][:i])))
         states = set(model['ctor'][1]['states'])
         for V in c['Vs']:
             key = 'sub:' + ','.join(map(str, V))
@@ -473,6 +759,15 @@ def malformed(R, st):
         ('S is an int', lambda: Kripke(3, [], tot, {})),
         ('L not a dict and R not total', lambda: Kripke([0, 1], [0], [(0, 1)], [(0, ['p'])])),
         ('triples and not total', lambda: Kripke([0, 1, 2], [0], [(0, 1, 0)], {})),
+        ('L is a UserDict', lambda: Kripke([0, 1], [0], tot, collections.UserDict({0: ['p']}))),
+        ('L is a mappingproxy', lambda: Kripke([0, 1], [0], tot, __import__('types').MappingProxyType({0: ['p']}))),
+    ]
+    # containers for V that `V & set(...)` does not accept: recorded only
+    vitems = [
+        ('get_substructure: V is a list', lambda: Kripke([0, 1], [0], tot, {0: ['p']}).get_substructure([0, 1])),
+        ('get_substructure: V is a tuple', lambda: Kripke([0, 1], [0], tot, {0: ['p']}).get_substructure((0, 1))),
+        ('get_substructure: V is a generator', lambda: Kripke([0, 1], [0], tot, {0: ['p']}).get_substructure(iter([0, 1]))),
+        ('get_substructure: V is a dict', lambda: Kripke([0, 1], [0], tot, {0: ['p']}).get_substructure({0: 1, 1: 1})),
     ]
     hist = {}
     for name, fn in items:
@@ -491,13 +786,26 @@ def malformed(R, st):
     for name in ('L not a dict and R not total',):
         if hist[name] != 'RuntimeError':
             R.violation('non-total relation not rejected with RuntimeError (%s)' % name, {'malformed': name, 'observed': hist[name]})
+    for name, fn in vitems:
+        R.evaluations += 1
+        r = call(fn)
+        if r[0] == 'ok':
+            o = obs_of(r, lambda s: s)
+            hist[name] = 'returned a structure'
+            bad = invariants(o[1]) if o[0] == 'ok' else ['result cannot be observed: %s' % o[1]]
+            if bad:
+                R.violation('get_substructure accepted a malformed V and returned a structure that is ' + '; '.join(bad),
+                            {'malformed': name, 'observed': o})
+        else:
+            hist[name] = r[1]
     st['malformed'] = hist
 
 
 # ----------------------------------------------------------------------------------------
 def new_stats():
     return {'ctor': {'ok': 0, 'RuntimeError': 0}, 'sub': {'ok': 0, 'RuntimeError': 0}, 'nontriv_sub': {}, 'ren': {},
-            'n_states': {}, 'violations': 0, 'model_cmds': 0, 'ctor_alias': {'True': 0, 'False': 0}}
+            'n_states': {}, 'violations': 0, 'model_cmds': 0, 'ctor_alias': {'True': 0, 'False': 0},
+            'vocab': {}, 'Lk': {}, 'sessions': 0, 'session_edits': {}}
 
 
 class Collector:
@@ -567,7 +875,7 @@ def gen_cases(R):
     # 1. every argument combination with at most 2 states
     small = []
     for n in (0, 1, 2):
-        small += [finish_case(c, rng) for c in space(n)]
+        small += [finish_case(c, rng, session=0.04) for c in space(n)]
     parts['all <=2 states'] = small
     # 2. three states: every (S, R); (S0, L) combinations dealt round-robin from a shuffled deck
     U3 = [0, 1, 2, 3]
@@ -584,14 +892,14 @@ def gen_cases(R):
                     L = deck[di % len(deck)][1]
                     di += 1
                     three.append(finish_case({'S': list(S), 'S0': list(S0), 'R': [list(e) for e in Rl],
-                                              'L': json.loads(json.dumps(L)), 'ren': 0}, rng))
+                                              'L': json.loads(json.dumps(L)), 'ren': 0}, rng, session=0.15))
     else:
         for S, Rl in sr_space(3):
             for _ in range(3):
                 S0, L = deck[di % len(deck)]
                 di += 1
                 three.append(finish_case({'S': list(S), 'S0': list(S0), 'R': [list(e) for e in Rl],
-                                          'L': json.loads(json.dumps(L)), 'ren': 0}, rng))
+                                          'L': json.loads(json.dumps(L)), 'ren': 0}, rng, session=0.15))
     parts['3 states'] = three
     # 3. four states (thorough: sampled systematically over S x R masks), random up to 5 (6 in thorough)
     four = []
@@ -602,12 +910,12 @@ def gen_cases(R):
             S = [s for s in range(4) if rng.random() < 0.5]
             S0 = [s for s in range(5) if rng.random() < 0.4]
             L = [[s, list(rng.choice(LABSETS[1:]))] for s in range(5) if rng.random() < 0.7]
-            four.append(finish_case({'S': S, 'S0': S0, 'R': Rl, 'L': L, 'ren': 0}, rng, nV=16))
+            four.append(finish_case({'S': S, 'S0': S0, 'R': Rl, 'L': L, 'ren': 0}, rng, nV=16, session=0.3))
         parts['4 states sampled'] = four
     rnd = []
     for _ in range(20000 if R.thorough else 1500):
         n = rng.randint(2, 6 if R.thorough else 5)
-        rnd.append(finish_case(rand_case(rng, n), rng, nV=16))
+        rnd.append(finish_case(rand_case(rng, n), rng, nV=16, session=0.7))
     parts['random'] = rnd
     return parts
 
@@ -620,10 +928,21 @@ def run(R):
               + (', every 3rd 4-state relation (of 65536) with random S, S0, L' if R.thorough else '')
               + ', random <= %d states (65%% repaired to total); ' % (6 if R.thorough else 5)
               + 'argument containers vary (None for empty, list/tuple/set/frozenset/iterator, duplicates, edges as lists, label values as '
-              'list/tuple/set/str); a renamed twin with str/tuple/mixed states for every 6th case; for every constructed K: clone(), '
-              'get_substructure(V) for every V subset of states+one foreign state (16 sampled V for > 3 states), labels(s)/next(s) for every state and two '
-              'non-states, identity + mutation aliasing monitors in both directions; all compared with the model as sets; non-trivial = K constructed '
-              'with >= 2 states and a substructure query whose V meets the states in a proper non-empty subset, distinct by (arguments, renaming, V)')
+              'list/tuple/set/str/dict keys); a renamed twin with str/tuple/mixed/identity-hashed states for every 6th case; the atoms p, q are '
+              'renamed (60%% of the cases) by one of %d injective vocabularies (multi-character names, a name spelt with the other name\'s '
+              'characters, 1 next to "1", tuple/int and str/int (unorderable), a frozenset atom, identity-hashed objects, empty name / name with a '
+              'blank) and labels are compared as VALUES through the vocabulary; L is a dict, OrderedDict, defaultdict(set) or a dict subclass; '
+              'for every constructed K: clone(), get_substructure(V) for every V subset of states+one foreign state (16 sampled V for > 3 states) with V '
+              'given in turn as set / frozenset / dict keys view / states() of another Kripke / collections.abc.Set / set subclass (what the library\'s '
+              '`V & set` accepts; list/tuple/generator are TypeErrors there and only recorded), labels(s)/next(s) for every state and two '
+              'non-states, identity + mutation aliasing monitors in both directions; EDIT SESSIONS on a share of the total cases (4%% / 15%% / 70%% of the '
+              '<=2-state / 3-state / random stream): 1-3 edits through the public API that keep the structure total and fully labelled (add_edge between '
+              'existing states, replace_labelling_function with a dict of sets incl. a non-state key, label_fair_states(F), K = K.clone()), and clone() + '
+              'get_substructure(all states / 2 random V) BEFORE the first and AFTER every edit, compared with the model\'s operations on the model\'s '
+              'constructor applied to the edited arguments (the fair states are taken from the implementation\'s get_fair_states, the label name from the '
+              'documented fair, fair0, ... scheme); all compared with the model as sets; non-trivial = K constructed '
+              'with >= 2 states and a substructure query whose V meets the states in a proper non-empty subset, distinct by (arguments, renaming, V); '
+              'or an edit-session prefix, distinct by (arguments, renaming, edits)' % (len(VOCABS) - 1))
     st = new_stats()
     parts = gen_cases(R)
     sizes = {}
@@ -641,6 +960,11 @@ def run(R):
         'state_value_kinds': st['ren'],
         'distinct_model_commands': st['model_cmds'],
     }
+    R.cov['distribution']['atom_vocabulary (constructed, labelled structures)'] = st['vocab']
+    R.cov['distribution']['L_container (constructed, labelled structures)'] = st['Lk']
+    R.cov['distribution']['V_container_kinds (cycled over the queries of each structure)'] = sorted(set(V_KINDS))
+    R.cov['distribution']['edit_sessions'] = st['sessions']
+    R.cov['distribution']['session_edits_by_kind'] = st['session_edits']
     R.cov['malformed_arguments_outcome (informational)'] = st['malformed']
     R.cov['constructor_keeps_reference_to_callers_containers (informational)'] = st['ctor_alias']
     R.cov['exhaustive_subspace'] = 'all argument combinations over <= 2 states (64410 cases) x all V; 3-state space sampled over (S0, L) only'
